@@ -5,7 +5,7 @@ use crate::{scen_agg, scen_bridge, scen_hist, scen_emf, scen_global, scen_queue,
 
 pub fn scenarios(prop: &str) -> Vec<Box<dyn Scenario>> {
     match prop {
-        "C01" => vec![Box::new(scen_queue::QueueFifo), Box::new(scen_queue::QueueFifoSustained)],
+        "C01" => vec![Box::new(scen_queue::QueueFifo), Box::new(scen_queue::QueueFifoSustained), Box::new(scen_queue::QueueChain)],
         "C04" => vec![Box::new(scen_queue::QueueFlushBarrier), Box::new(scen_queue::QueueFlushLiveness)],
         "C05" => vec![Box::new(scen_queue::QueueShutdown), Box::new(scen_global::GlobalDetach)],
         "C06" => vec![Box::new(scen_uow::UowClose)],
